@@ -276,6 +276,11 @@ def c03(tier):
     rep = Reporter("C03", ev)
     cfg = "MC_KnotVector_quick.cfg" if tier == "quick" else "MC_KnotVector_thorough.cfg"
     model_replay("C03", tier, ev, rep, "MC_KnotVector.tla", cfg)
+    # the same transitions on an order-isomorphic image of the numbers (interval 10^13 times the smallest knot gap)
+    ORDER_ONLY = {"KvNew", "KvInsert", "KvRemove", "KvSetDegree", "KvIOr", "KvIAnd", "KvOr", "KvAnd", "KvSplit", "KvCopy", "KvEq"}
+    model_replay_cached("C03", tier, ev, rep, "MC_KnotVector.tla", cfg, "stretch", {},
+                        filt=lambda t: t["d"] == 1 and (t["act"]["name"] in ORDER_ONLY or (
+                            t["act"]["name"] == "KvValueOp" and t["act"]["op"] in ("add_nodes", "sub_nodes"))))
     suite_trace("C03", tier, ev, rep, {"kv"}, ["tests/test_knotspace.py", "tests/test_splinecurve.py"] if tier == "quick" else [])
     driver_kv("C03", tier, ev, rep, 30 if tier == "quick" else 600, 25 if tier == "quick" else 40)
     ev.assumptions += ["knot values are exact rationals in this run (float behaviour: C16/C18)",
@@ -380,10 +385,55 @@ def c14(tier):
     ev = Evidence("C14", tier, core.seed())
     rep = Reporter("C14", ev)
     model_replay("C14", tier, ev, rep, "MC_Curve.tla", f"MC_Curve_clean_{tier}.cfg")
+    model_replay("C14", tier, ev, rep, "MC_Curve.tla", "MC_Curve_wide_clean_quick.cfg")
     driver_curves("C14", tier, ev, rep, 12 if tier == "quick" else 300, 8 if tier == "quick" else 14)
     return finish(ev, rep)
 c09 = simple("C09", [("MC_Curve.tla", "MC_Curve_deriv_TIER.cfg"), ("MC_Curve.tla", "MC_Curve_wide_calc_quick.cfg")])
-c11 = simple("C11", [("MC_Curve.tla", "MC_Curve_fitcurve_TIER.cfg")])
+def high_degree_fit_crossmode(prop, ev, rep):
+    """fit_curve for degrees 5..7 with different interior breaks in source and target.  The exact L2 integrals of such
+    products (degree up to 14) are beyond the closed Newton-Cotes constants of Approx.tla (degree <= 9), so there is no
+    TLC oracle here; what remains decidable is C16's claim for this operation: the Fraction code path (open Newton-Cotes)
+    and the float code path (Chebyshev) compute the same projection.  Both are exact quadratures when they use enough
+    nodes; a shortage of nodes in either shows as a disagreement far above rounding."""
+    lib = core.import_lib()
+    n = 0
+    for ps, pt, bs, bt in ((6, 7, 1, 2), (7, 7, 1, 2), (7, 6, 2, 1), (5, 7, 2, 1), (7, 5, 1, 2)):
+        Us = [0] * (ps + 1) + [bs] + [3] * (ps + 1)
+        Ut = [0] * (pt + 1) + [bt] + [3] * (pt + 1)
+        P = [((i * 7) % 5) - 2 + Fraction(i % 3, 2) for i in range(ps + 2)]
+        res = {}
+        for name, cv in (("Fraction", Fraction), ("float", float)):
+            C = lib.Curve(lib.KnotVector([cv(x) for x in Us]), [cv(x) for x in P])
+            S = lib.Curve(lib.KnotVector([cv(x) for x in Ut]))
+            try:
+                err = S.fit_curve(C)
+                res[name] = ([float(x) for x in S.ctrlpoints], float(err))
+            except Exception as e:
+                res[name] = f"{type(e).__name__}: {e}"
+        n += 1
+        a, b = res["Fraction"], res["float"]
+        t = {"act": {"name": "CvFitCurve", "obj": "a", "nodes": [], "other": {"U": [[x, 1] for x in Us], "P": [core.rat(x) for x in P], "W": []}},
+             "pre": {"a": {"kind": "cv", "U": [[x, 1] for x in Ut], "P": [[0, 1]] * (pt + 2), "W": []}}, "d": 1,
+             "ret": {"class": "ok", "val": [], "rel": "sem"}, "post": {}}
+        if isinstance(a, str) or isinstance(b, str):
+            rep.violation("highdegree-fit:raised", {"transition": t, "mode": "float", "failures": [f"degree {ps} -> {pt}: Fraction data: {a}; float data: {b}"]})
+            continue
+        scale = max(1.0, max(abs(x) for x in a[0]))
+        bad = [i for i, (x, y) in enumerate(zip(a[0], b[0])) if abs(x - y) > 1e-6 * scale]
+        if bad or abs(a[1] - b[1]) > 1e-6 * max(1.0, abs(a[1])):
+            rep.violation("highdegree-fit:Fraction and float code paths disagree", {"transition": t, "mode": "float", "failures": [
+                f"degree {ps} -> {pt}: control points {a[0]} vs {b[0]}, errors {a[1]!r} vs {b[1]!r}"]})
+    ev.validated += n
+    ev.extra["high_degree_fits_compared_between_number_types"] = n
+
+
+def c11(tier):
+    ev = Evidence("C11", tier, core.seed())
+    rep = Reporter("C11", ev)
+    model_replay("C11", tier, ev, rep, "MC_Curve.tla", f"MC_Curve_fitcurve_{tier}.cfg")
+    model_replay("C11", tier, ev, rep, "MC_Curve.tla", "MC_Curve_fitcurve_gap_quick.cfg")
+    high_degree_fit_crossmode("C11", ev, rep)
+    return finish(ev, rep)
 def default_nodes_equivariant(ev, rep, records):
     """fit_points(points) without nodes, FLOAT knots: the default nodes are irrational (Chebyshev), so TLC cannot hold
     them; what the specification fixes (Sem.tla, FitPointsClauses: default nodes = umin + (umax-umin) * t_k with t_k a
@@ -590,7 +640,43 @@ def c18(tier):
                      filt=(lambda t: True) if mode != "int" else (lambda t: t["act"]["kind"] in ("bezier", "integer", "weight")))
     # affine maps + reparametrisation invariance of the basis: KnotVector machine restricted to shift/scale/normalize,
     # then the basis on the mapped vector (spec theorem ReparamInvariant ties it to the basis on the original one)
-    model_replay("C18", tier, ev, rep, "MC_KnotVector.tla", f"MC_KvAffine_{tier}.cfg")
+    res_aff = model_replay("C18", tier, ev, rep, "MC_KnotVector.tla", f"MC_KvAffine_{tier}.cfg")
+    # the same shifts and scalings on the vectors multiplied by 1e-10 and by 1e13 (exact Fractions): an affine map of an
+    # affine image is the affine image of the map, whatever the size of the numbers (the knot gaps drop below the 1e-9
+    # of the library's multiplicity count in the first case: only the element lists are compared there, no queries)
+    nmicro = 0
+    for S in (Fraction(1, 10 ** 10), Fraction(10 ** 13)):
+        for t in res_aff.records:
+            a = t["act"]
+            if t["d"] != 1 or t["ret"]["class"] != "ok" or a["name"] not in ("KvShift", "KvScale", "KvValueOp"):
+                continue
+            if a["name"] == "KvValueOp" and a["op"] in ("add_nodes", "sub_nodes"):
+                continue
+            U = [S * fr(x) for x in t["pre"][a["obj"]]["U"]]
+            by = fr(a["by"])
+            want_spec = t["post"][a["obj"]]["U"] if a["name"] != "KvValueOp" else t["ret"]["val"]
+            want = [S * fr(x) for x in want_spec]
+            kv = lib.KnotVector(list(U))
+            nmicro += 1
+            try:
+                if a["name"] == "KvShift":
+                    r = kv.shift(S * by)
+                elif a["name"] == "KvScale":
+                    r = kv.scale(by)
+                else:
+                    op = a["op"]
+                    r = {"add": lambda: kv + S * by, "sub": lambda: kv - S * by, "mul": lambda: kv * by,
+                         "rmul": lambda: by * kv, "div": lambda: kv / by}[op]()
+                got = [Fraction(x) for x in r]
+            except Exception as e:
+                rep.violation(f"scaled-vector:{a['name']}:raised", {"transition": t, "mode": "fraction", "failures": [
+                    f"knots multiplied by {S}: {type(e).__name__}: {e}"]})
+                continue
+            if got != want:
+                rep.violation(f"scaled-vector:{a['name']}:result", {"transition": t, "mode": "fraction", "failures": [
+                    f"knots multiplied by {S}: got {[str(x) for x in got]}, expected {[str(x) for x in want]}"]})
+    ev.validated += nmicro
+    ev.extra["affine_maps_on_vectors_scaled_by_1e-10_and_1e13"] = nmicro
     # random(): every draw is captured and handed to TLC as the witness of the existential
     val = Validator()
     rng_seed = core.seed()
@@ -664,6 +750,20 @@ def c15(tier):
     rep = Reporter("C15", ev)
     model_replay("C15", tier, ev, rep, "MC_Machine.tla", f"MC_Machine_{tier}.cfg")
     model_replay("C15", tier, ev, rep, "MC_Curve.tla", "MC_Curve_misc_quick.cfg")
+    # the caller's own numpy arrays (control points of 2-D curves) are values too: no operation may change them in place
+    from .vector import vector_replay
+    lib = core.import_lib()
+    na = 0
+    for cfg in ("MC_Curve_insert_quick.cfg", "MC_Curve_elevate_quick.cfg", "MC_Curve_split_quick.cfg", "MC_Curve_remove_quick.cfg"):
+        res = run_tlc("MC_Curve.tla", cfg)
+        need_ok(res, cfg)
+        ev.add_tlc(res, cfg + " (2-D pairs: caller's arrays unchanged)")
+        recs = [t for t in res.records if t["d"] == 1 and t["pre"].get("a", {}).get("W")][:: 1 if tier == "thorough" else 3]
+        na += vector_replay(recs, lib, lambda t, fails: rep.violation("caller's arrays:" + t["act"]["name"], {
+            "transition": {k: v for k, v in t.items() if k != "_pair"}, "pair": t.get("_pair"), "failures": fails,
+            "mode": "fraction, 2-D points", "cfg": cfg}), arrays_only=True)
+    ev.validated += na
+    ev.extra["calls_checked_for_in_place_changes_of_the_callers_arrays"] = na
     suite_trace("C15", tier, ev, rep, {"cv"}, ["tests/test_splinecurve.py", "tests/test_rationalcurve.py",
                                                 "tests/test_beziercurve.py"] if tier == "quick" else [])
     return finish(ev, rep)
@@ -686,8 +786,10 @@ def c16(tier):
     cache = {}
     for module, cfg in scen:
         for mode in modes:
+            big = any(k in cfg for k in ("insert", "split"))   # the two largest instances: every 2nd / 3rd transition
             model_replay_cached("C16", tier, ev, rep, module, cfg, mode, cache,
-                                stride=2 if (tier == "quick" and mode == "numpy.float64") else 1)
+                                stride=1 if tier != "quick" else (3 if mode == "numpy.float64" else 2) if big else
+                                (2 if mode == "numpy.float64" else 1))
     # a minimal user-defined point type (point + point, scalar * point only): evaluation, insertion, elevation, splitting
     for module, cfg in scen[:5]:
         if "basis" in cfg:
@@ -755,6 +857,32 @@ def cross_mode(ev, rep, module, cfg, cache, limit=None):
             if cx != cf:
                 rep.violation(f"crossmode:{a['name']}:outcome", {"transition": t, "failures": [f"Fraction data: {cx} ({ex}), float data: {cf} ({ef})"], "mode": "float"})
             continue
+        if a["name"] == "CvArith" and not t["pre"][a["obj"]]["W"] and not a["other"]["W"]:
+            # the same operands with Python-int control points of size 1e10 (all points times one big integer): the
+            # result is the exact multiple; 64-bit integer arrays would wrap silently
+            import math
+            A, B = lx[a["obj"]], rx.curve_from(a["other"])
+            dens = [Fraction(p).denominator for p in list(A.ctrlpoints) + list(B.ctrlpoints)]
+            for K in (math.lcm(*dens), (3 * 10 ** 9 + 7) * math.lcm(*dens)):
+              try:
+                  Ab = lib.Curve(A.knotvector, [int(Fraction(p) * K) for p in A.ctrlpoints])
+                  Bb = lib.Curve(B.knotvector, [int(Fraction(p) * K) for p in B.ctrlpoints])
+                  op = a["op"]
+                  rb = {"add": lambda: Ab + Bb, "sub": lambda: Ab - Bb, "mul": lambda: Ab * Bb, "div": lambda: Ab / Bb}[op]()
+                  factor = {"add": K, "sub": K, "mul": K * K, "div": 1}[op]
+                  ks = sorted({Fraction(v) for v in vx["curve"].knotvector.knots})
+                  badb = []
+                  for lo, hi in zip(ks[:-1], ks[1:]):
+                      u = lo + (hi - lo) * Fraction(2, 5)
+                      x, y = vx["curve"](u), rb(u)
+                      if isinstance(y, float) or Fraction(y) != Fraction(x) * factor:
+                          badb.append(f"at u = {u}: {y!r}, exact multiple {Fraction(x) * factor}")
+                  if badb:
+                      rep.violation(f"crossmode:{a['name']}:big Python-int control points", {"transition": t, "mode": "int", "failures": [
+                          f"control points multiplied by {K} (ints): " + "; ".join(badb[:3])]})
+              except Exception as e:
+                  rep.violation(f"crossmode:{a['name']}:big Python-int control points raised", {"transition": t, "mode": "int", "failures": [
+                      f"{type(e).__name__}: {e}"]})
         if a["name"] in ("CvArith", "CvScalar", "CvJoin"):
             # a returned curve: compared as a FUNCTION (the two number types may legitimately store it differently)
             cx_, cf_ = vx["curve"], vf["curve"]
@@ -880,7 +1008,7 @@ def replay_file(prop, path):
         return 0
     if t is not None and isinstance(t, dict) and "act" in t and "pre" in t:
         val = Validator()
-        r = Replayer(lib, d.get("mode", "fraction") if d.get("mode") in ("fraction", "int", "float", "numpy.float64", "huge", "minimal-point", "tiny-weights") else "fraction",
+        r = Replayer(lib, d.get("mode", "fraction") if d.get("mode") in ("fraction", "int", "float", "numpy.float64", "huge", "minimal-point", "tiny-weights", "stretch") else "fraction",
                      validator=val)
         live = r.build(t["pre"])
         r.reset_module_state()
